@@ -11,6 +11,7 @@ from __future__ import annotations
 
 import itertools
 import math
+from fractions import Fraction
 import shutil
 import tempfile
 
@@ -19,6 +20,7 @@ import numpy as np
 from . import common as C
 from . import gen as G
 from .c02 import gen_call_instance, call_tokens, exact_w
+from .c05 import rising, exact_dm
 
 PROP = "C03"
 MODULE = "MCHap.Properties.C03"
@@ -38,9 +40,12 @@ THEOREMS = [
     "MCHap.C03.posterior_nonneg",
     "MCHap.C03.gpm_le_spm_le_one_of_inputs",
 ]
-RULE = ("cases: random known-haplotype sets (1..6 haplotypes), ploidy 1..6, frequencies {None, flat, skewed, zeros}, inbreeding "
-        "{0,.01,.25,.5,.9}, reads with gaps and counts (depth 0..6 unique reads). Non-trivial: >= 3 genotypes with pairwise different "
-        "posterior probability. CLI: call-exact on a synthetic data set with several --report subsets. Distinct by request line.")
+RULE = ("cases: random known-haplotype sets (1..6 haplotypes), ploidy 1..6, frequencies {None, flat, skewed, zeros, tiny}, inbreeding "
+        "{0,.01,.25,.5,.9}, reads with gaps and counts (depth 0..6 unique reads; encoded / free / hard), read_counts=None; deep instances "
+        "(up to 30 unique reads with counts up to 40), ploidy 8..12 over 2..3 haplotypes, ploidy 2 over 70..150 haplotypes, loci without any "
+        "SNV (the last four against the independent Fraction posterior only). Non-trivial: >= 3 genotypes with pairwise different "
+        "posterior probability. CLI: call-exact on synthetic data sets (mixed ploidy 2/4/6, shallow and one deep 60..150 templates, one "
+        "--sample-pool run) with --report subsets entering the array path through GP, GL or both. Distinct by request line.")
 F32 = 2e-5   # float32 storage of the likelihood / posterior arrays on the GP/GL path
 
 
@@ -48,7 +53,65 @@ def _vcf_index(g):
     return sum(math.comb(a + k, k + 1) for k, a in enumerate(sorted(g)))
 
 
-def cli_posterior_oracle(chk, drv, synth, ds, tmp, inb):
+def oracle_posterior(reads, counts, haps, F, freqs, ploidy):
+    """The property's posterior, independently of the model and of the code: for every unordered genotype (VCF / colex order)
+    log(likelihood x prior) = sum_reads count x log(exact mean over the genotype's haplotypes of the per-haplotype product)
+    + log(exact (Dirichlet-)multinomial prior); normalised in float64.  Exact rationals per read (no powers), so deep reads and
+    large panels stay cheap.  Returns (genotypes, probabilities | None when every genotype has weight 0, log-joints, log-likelihoods)."""
+    n = len(haps)
+    n_reads, n_base = reads.shape[0], reads.shape[1]
+    P = []
+    for i in range(n_reads):
+        row = []
+        for h in haps:
+            pr = Fraction(1)
+            for j in range(n_base):
+                v = reads[i, j, h[j]]
+                if not math.isnan(v):
+                    pr *= Fraction(float(v))
+            row.append(pr)
+        P.append(row)
+    cs = [1] * n_reads if counts is None else [int(c) for c in counts]
+    fs = [Fraction(1, n)] * n if freqs is None else [Fraction(float(x)) for x in freqs]
+    Ff = Fraction(float(F))
+    if Ff != 0:
+        alphas = [f * (1 - Ff) / Ff for f in fs]
+        lA = C.frac_log(rising(sum(alphas), ploidy))
+    lfact = math.log(math.factorial(ploidy))
+    lpl = math.log(ploidy)
+    genos = list(itertools.combinations_with_replacement(range(n), ploidy))
+    genos.sort(key=lambda g: tuple(reversed(g)))
+    lj, lls = [], []
+    for g in genos:
+        ll = 0.0
+        for i in range(n_reads):
+            rp = sum(P[i][a] for a in g)
+            if rp == 0:
+                ll = -math.inf
+                break
+            ll += cs[i] * (C.frac_log(rp) - lpl)
+        lp = lfact
+        for a in set(g):
+            c = g.count(a)
+            lp -= math.log(math.factorial(c))
+            term = fs[a] ** c if Ff == 0 else rising(alphas[a], c)
+            lp += C.frac_log(term)
+        if Ff != 0:
+            lp -= lA
+        lls.append(ll)
+        lj.append(ll + lp if math.isfinite(ll) and math.isfinite(lp) else -math.inf)
+    top = max(lj)
+    if not math.isfinite(top):
+        return genos, None, lj, lls
+    w = [math.exp(x - top) for x in lj]
+    tot = math.fsum(w)
+    return genos, [x / tot for x in w], lj, lls
+
+
+FORMAT_KEYS = ("GP", "GL", "AFP", "ACP", "AOP")      # optional per-sample fields of call-exact (AFPRIOR etc. are INFO fields)
+
+
+def cli_posterior_oracle(chk, drv, synth, ds, tmp, inb, deep=False):
     """End to end: what `mchap call-exact` prints for a sample is the posterior of the model evaluated on the
     reads the program encoded for that sample, the haplotypes of the record and the prior the record reports
     (AFPRIOR = the locus' frequencies) — with and without GP (both code paths), without / with
@@ -71,16 +134,28 @@ def cli_posterior_oracle(chk, drv, synth, ds, tmp, inb):
     hap_m = synth.bgzip_tabix_vcf(synth.write_text(tmp + "/hapM.vcf", "\n".join(masked_lines)))
     variants = [("plain", hap, []), ("refmasked-input", hap_m, []), ("prior-AFP", hap, ["--prior-frequencies", "AFP"]),
                 ("refmasked-input+prior-AFP", hap_m, ["--prior-frequencies", "AFP"]),
-                ("filter", hap, ["--filter-input-haplotypes", "AFP>=0.2"])]
+                ("filter", hap, ["--filter-input-haplotypes", "AFP>=0.2"]),
+                # all samples pooled into one individual of ploidy 6 (reads of all BAMs, one column)
+                ("sample-pool", hap, ["--sample-pool", "POOL"])]
+    if deep:
+        variants = [("plain-deep", hap, [])]
     obs = Observer()
     obs.install()
     memo = {}
     try:
         for vname, hv, extra in variants:
-            for rep in (("GP", "AFP", "ACP", "AOP", "AFPRIOR"), ("AFP", "ACP", "AOP", "AFPRIOR")):
+            reps = [("GP", "AFP", "ACP", "AOP", "AFPRIOR"), ("AFP", "ACP", "AOP", "AFPRIOR")]
+            if vname in ("plain", "plain-deep", "sample-pool"):
+                reps.append(("GL", "AFP", "ACP", "AOP", "AFPRIOR"))      # the array path entered through GL alone
+            for rep in reps:
                 obs.active = True
                 try:
-                    o, rc2, e2 = synth.run_program(ds.call_argv("call-exact", hv, "--inbreeding", inb, "--report", *rep, *extra))
+                    if vname == "sample-pool":
+                        argv = ["mchap", "call-exact", "--bam", *ds.bams, "--ploidy", "6", "--haplotypes", hv, "--inbreeding", "0.15",
+                                "--report", *rep, *extra]
+                    else:
+                        argv = ds.call_argv("call-exact", hv, "--inbreeding", inb, "--report", *rep, *extra)
+                    o, rc2, e2 = synth.run_program(argv)
                 finally:
                     obs.active = False
                 loci, _, _ = obs.take()
@@ -103,32 +178,62 @@ def cli_posterior_oracle(chk, drv, synth, ds, tmp, inb):
                         continue
                     haps = [[int(x) for x in row] for row in L["haplotypes"]]
                     for j_, (name, smp) in enumerate(zip(rec["sample_names"], rec["samples"])):
-                        if vname != "plain" and j_ >= 2 and len(haps) > 5:
-                            continue    # the exact model is slow on large panels: two samples per record there
                         reads, counts = L["arrays"][name]
                         if len(counts) == 0:
                             reads = np.full((1, len(haps[0]), 2), np.nan); counts = np.array([1], dtype=np.int64)
                         ploidy = int(L["ploidy"][name]); F = float(L["inbreeding"][name])
-                        reqs.append(" ".join(["exact.all"] + call_tokens(np.array(reads, dtype=float), np.array(counts), haps, F, freqs) + [str(ploidy)]))
+                        q = " ".join(["exact.all"] + call_tokens(np.array(reads, dtype=float), np.array(counts), haps, F, freqs) + [str(ploidy)])
+                        if math.comb(len(haps) + ploidy - 1, ploidy) > 30000:
+                            chk.count("cli-oracle:skipped(more than 30000 genotypes)")
+                            continue
+                        if math.comb(len(haps) + ploidy - 1, ploidy) > 40 and q not in memo:
+                            # larger genotype spaces (more than 40 genotypes): the exact-rational model driver takes seconds per
+                            # request; the independent Fraction / float64 posterior of this module is used instead
+                            genos_, truth_, lj_, _ = oracle_posterior(np.array(reads, dtype=float), np.array(counts), haps, F, freqs, ploidy)
+                            if truth_ is None:
+                                memo[q] = ("py", None)
+                            else:
+                                afp_ = [0.0] * len(haps); aop_ = [0.0] * len(haps)
+                                for g_, t_ in zip(genos_, truth_):
+                                    for a_ in set(g_):
+                                        afp_[a_] += t_ * g_.count(a_) / ploidy
+                                        aop_[a_] += t_
+                                memo[q] = ("py", truth_, afp_, [x * ploidy for x in afp_], aop_, abs(max(lj_)))
+                        reqs.append(q)
                         meta.append((rec, name, smp, ploidy, F, freqs, haps))
                 todo = [q for q in dict.fromkeys(reqs) if q not in memo]
                 memo.update(zip(todo, drv.ask(todo)))
                 for (rec, name, smp, ploidy, F, freqs, haps), a in zip(meta, [memo[q] for q in reqs]):
-                    parts = a.split(";")
-                    if len(parts) < 9:
-                        chk.disagreement("model cannot evaluate a CLI case", {**tag, "locus": rec["ID"], "sample": name, "model": a[:200]})
-                        continue
-                    m_post = [float(C.parse_rat(x)) for x in parts[0].split()]
-                    if not m_post or sum(C.parse_rat(x) for x in parts[8].split()) == 0:
-                        chk.count("cli-oracle:zero-total")
-                        continue
-                    m_afp = [float(C.parse_rat(x)) for x in parts[5].split()]
-                    m_acp = [float(C.parse_rat(x)) for x in parts[6].split()]
-                    m_aop = [float(C.parse_rat(x)) for x in parts[7].split()]
+                    if isinstance(a, tuple):
+                        chk.count("cli-oracle:large-space(independent Fraction posterior instead of the model driver)")
+                        if a[1] is None:
+                            chk.count("cli-oracle:zero-total")
+                            continue
+                        _, m_post, m_afp, m_acp, m_aop, l_mode = a
+                    else:
+                        parts = a.split(";")
+                        if len(parts) < 9:
+                            chk.disagreement("model cannot evaluate a CLI case", {**tag, "locus": rec["ID"], "sample": name, "model": a[:200]})
+                            continue
+                        m_post = [float(C.parse_rat(x)) for x in parts[0].split()]
+                        if not m_post or sum(C.parse_rat(x) for x in parts[8].split()) == 0:
+                            chk.count("cli-oracle:zero-total")
+                            continue
+                        m_afp = [float(C.parse_rat(x)) for x in parts[5].split()]
+                        m_acp = [float(C.parse_rat(x)) for x in parts[6].split()]
+                        m_aop = [float(C.parse_rat(x)) for x in parts[7].split()]
+                        l_mode = abs(C.frac_log(max(C.parse_rat(x) for x in parts[8].split())))
                     case = {**tag, "locus": rec["ID"], "sample": name, "ploidy": ploidy, "inbreeding": F,
                             "prior": [float(x) for x in freqs], "n_haplotypes": len(haps), "line": rec["line"][:300]}
                     chk.case(("cli-oracle", vname, rep, rec["ID"], name), len(haps) >= 2)
-                    tol = 0.0005 + 1e-4
+                    chk.count(f"cli-oracle:ploidy={ploidy}")
+                    # printed to 3 decimals; on the array path the log-joints pass through float32: a few units in the last
+                    # place of the magnitude of the log-joint around the mode (1e-4 covers shallow data)
+                    tol = 0.0005 + max(1e-4, 4.0 * float(np.spacing(np.float32(l_mode + 50.0))))
+                    for key in rep:
+                        if key in FORMAT_KEYS and key not in smp:
+                            chk.violation(f"call-exact --report {key}: the requested FORMAT field is absent from the sample column",
+                                          {**case, "FORMAT": rec["FORMAT"]}, "C03/cli/requested-field-absent")
                     gt = [int(x) for x in smp["GT"].split("/")]
                     best = max(m_post)
                     if m_post[_vcf_index(gt)] < best - 1e-3:
@@ -156,132 +261,220 @@ def run(tier, replay=None):
     from mchap.calling import exact as E
 
     chk = C.Check(PROP, tier, MODULE, THEOREMS, RULE, assumptions=[
-        "the GP/GL path stores log-likelihoods and posteriors as float32: compared at 2e-5, and the reported mode may differ "
+        "the GP/GL path stores log-likelihoods and posteriors as float32: compared at 2e-5 or, for deep data, at 4 units in the last place "
+        "(float32) of the largest log-likelihood / log-joint stored, and the reported mode may differ "
         "between the two paths only when the two largest posteriors are within float32 resolution (counted, not compared)",
+        "CLI cases with more than 40 genotypes are compared with the independent Fraction / float64 posterior of this module instead of the "
+        "exact-rational model driver (seconds per request); more than 30000 genotypes are not compared",
         "SPM / AFP / ACP / AOP are the same functions of the posterior array on both paths in the model (their sums and GPM <= SPM <= 1 are theorems)",
     ])
     chk.prove()
     drv = C.Driver()
     r = C.rng(PROP)
-    n_cases = {"warm": 3, "quick": 250, "thorough": 3000}[tier]
+    import time
+    t_sec = [time.time()]
 
-    insts, lines = [], []
-    for i in range(n_cases):
-        inst = gen_call_instance(r, max_haps=5 if tier != "thorough" else 6)
+    def lap(name):
+        chk.extra.setdefault("section_seconds", {})[name] = round(time.time() - t_sec[0], 1)
+        t_sec[0] = time.time()
+    from mchap.jitutils import index_as_genotype_alleles
+    n_cases = {"warm": 3, "quick": 250, "thorough": 3000}[tier]
+    n_deep = {"warm": 1, "quick": 24, "thorough": 240}[tier]          # 30 unique reads, counts up to 40
+    n_high = {"warm": 1, "quick": 10, "thorough": 100}[tier]          # ploidy 8-12 over 2-3 haplotypes
+    n_wide = {"warm": 1, "quick": 3, "thorough": 30}[tier]            # ploidy 2 over 70-150 haplotypes
+    n_ref = {"warm": 1, "quick": 3, "thorough": 10}[tier]             # no SNV at all (REF-only record)
+
+    insts, lines, line_of = [], [], {}
+    for i in range(n_cases + n_deep + n_high + n_wide + n_ref):
+        var = {"stream": "small", "read_counts": "array"}
+        if i < n_cases:
+            inst = gen_call_instance(r, max_haps=5 if tier != "thorough" else 6)
+            if r.random() < 0.12:
+                inst[8][:] = 1                      # read_counts=None: every read counts once
+                var["read_counts"] = "None"
+        elif i < n_cases + n_deep:
+            inst = gen_call_instance(r, max_haps=4, max_reads=30, max_count=40, styles=("encoded", "encoded", "free"))
+            var["stream"] = "deep"
+        elif i < n_cases + n_deep + n_high:
+            inst = gen_call_instance(r, ploidy=r.randint(8, 12), n_haps=r.choice([2, 3]))
+            var["stream"] = "ploidy8-12"
+        elif i < n_cases + n_deep + n_high + n_wide:
+            # alternately more than 128 haplotypes (allele indices beyond int8) and fewer
+            inst = gen_call_instance(r, panel=True, ploidy=2, n_haps=r.randint(129, 150) if (i - n_cases - n_deep - n_high) % 2 == 0 else r.randint(70, 127))
+            var["stream"] = "ploidy2x70-150haplotypes"
+        else:
+            ploidy = r.choice([1, 2, 4, 6])
+            n_reads = r.choice([0, 1, 5])
+            width = r.choice([0, 2])
+            inst = ([], [[]], ploidy, "flatarr", np.array([1.0]), r.choice([0.0, 0.3]), [0] * ploidy,
+                    np.zeros((n_reads, 0, width)), np.ones(n_reads, dtype=np.int64))
+            var["stream"] = "no-snv"
+            if n_reads == 0 or r.random() < 0.5:
+                var["read_counts"] = "None"
         n_alleles, haps, ploidy, kind, freqs, F, alleles, reads, counts = inst
-        lines.append(" ".join(["exact.all"] + call_tokens(reads, counts, haps, F, freqs) + [str(ploidy)]))
-        insts.append(inst)
+        if var["stream"] == "small":
+            line_of[i] = len(lines)
+            lines.append(" ".join(["exact.all"] + call_tokens(reads, counts, haps, F, freqs) + [str(ploidy)]))
+        insts.append((inst, var))
     ans = drv.ask(lines)
-    for inst, a, line in zip(insts, ans, lines):
+    lap("model")
+    for i, (inst, var) in enumerate(insts):
         n_alleles, haps, ploidy, kind, freqs, F, alleles, reads, counts = inst
         n = len(haps)
-        harr = np.array(haps, dtype=np.int8)
-        parts = a.split(";")
-        m_post = [float(C.parse_rat(x)) for x in parts[0].split()]
-        m_si, m_sg = parts[1].split(); m_ai, m_ag = parts[2].split()
-        m_g = [int(x) for x in parts[3].split()]
-        m_spm = float(C.parse_rat(parts[4]))
-        m_afp = [float(C.parse_rat(x)) for x in parts[5].split()]
-        m_acp = [float(C.parse_rat(x)) for x in parts[6].split()]
-        m_aop = [float(C.parse_rat(x)) for x in parts[7].split()]
-        m_joint = [C.parse_rat(x) for x in parts[8].split()]
-        total = sum(m_joint)
-        case = {"haplotypes": haps, "ploidy": ploidy, "inbreeding": F, "frequencies": None if freqs is None else freqs.tolist(),
-                "counts": counts.tolist(), "reads": [[[None if math.isnan(x) else x for x in row] for row in rd] for rd in reads.tolist()]}
-        distinct = len({round(p, 12) for p in m_post})
-        chk.count(f"ploidy={ploidy}"); chk.count(f"n_haps={n}"); chk.count(f"freq={kind}"); chk.count(f"F={F}")
-        if total == 0:
+        harr = np.array(haps, dtype=np.int8).reshape(n, reads.shape[1])
+        rc = None if var["read_counts"] == "None" else counts
+        has_model = i in line_of
+        small_case = reads.size <= 300 and n <= 12
+        case = {"haplotypes": haps if n <= 12 else f"{n} haplotypes", "ploidy": ploidy, "inbreeding": F,
+                "frequencies": None if freqs is None else freqs.tolist()[:20], "variant": var,
+                "counts": counts.tolist(), "reads": [[[None if math.isnan(x) else x for x in row] for row in rd] for rd in reads.tolist()]
+                if small_case else f"array {reads.shape}"}
+        chk.count(f"ploidy={ploidy}"); chk.count(f"n_haps={n if n <= 8 else '70..150'}"); chk.count(f"freq={kind}"); chk.count(f"F={F}")
+        chk.count(f"stream={var['stream']}"); chk.count(f"read_counts={var['read_counts']}")
+        # ---------------- the property's posterior, independently
+        genos, truth, lj, lls_t = oracle_posterior(reads, rc, haps, F, freqs, ploidy)
+        if i % 40 == 0 and n <= 12 and truth is not None:
+            # the oracle's prior against the other independent statement of it (harness self-check)
+            g0 = genos[len(genos) // 2]
+            lp0 = C.frac_log(exact_dm(list(g0), n, F, freqs)) + C.frac_log(G.exact_lik(reads, np.ones(len(counts), dtype=np.int64) if rc is None else counts,
+                                                                                 [haps[a] for a in g0]))
+            if not C.close_log(lj[len(genos) // 2], lp0):
+                raise C.Infra(f"C03 oracle self-check failed: {lj[len(genos) // 2]} vs {lp0}")
+        if truth is None:
             chk.count("skipped:zero-total")
             continue
         # ---------------- streaming path
-        g_s, llk_s, gpm_s, spm_s, afp_s, aop_s = E.posterior_mode(reads, ploidy, harr, read_counts=counts, inbreeding=F, frequencies=freqs,
-                                                                  return_support_prob=True, return_posterior_frequencies=True,
-                                                                  return_posterior_occurrence=True)
-        # ---------------- array path
-        llks = E.genotype_likelihoods(reads, ploidy, harr, read_counts=counts)
-        post = E.genotype_posteriors(llks, ploidy, n, inbreeding=F, frequencies=freqs)
-        idx = int(np.argmax(post))
-        from mchap.jitutils import index_as_genotype_alleles
-        g_a = index_as_genotype_alleles(idx, ploidy)
-        gpm_a = float(post[idx])
-        _, sup = E.alternate_dosage_posteriors(g_a, post)
-        spm_a = float(sup.sum())
-        afp_a, acp_a, aop_a = E.posterior_allele_frequencies(post, ploidy, n)
-        chk.case(line, distinct >= 3, sample={"request": line[:200], "impl_stream": [g_s.tolist(), float(gpm_s), float(spm_s)],
-                                              "impl_array": [g_a.tolist(), gpm_a, spm_a], "model": [m_g, float(C.parse_rat(m_sg)), m_spm]})
-        # top-two margin
-        srt = sorted(m_post, reverse=True)
+        try:
+            g_s, llk_s, gpm_s, spm_s, afp_s, aop_s = E.posterior_mode(reads, ploidy, harr, read_counts=rc, inbreeding=F, frequencies=freqs,
+                                                                      return_support_prob=True, return_posterior_frequencies=True,
+                                                                      return_posterior_occurrence=True)
+            # ---------------- array path
+            llks = E.genotype_likelihoods(reads, ploidy, harr, read_counts=rc)
+            post = E.genotype_posteriors(llks, ploidy, n, inbreeding=F, frequencies=freqs)
+            idx = int(np.argmax(post))
+            g_a = index_as_genotype_alleles(idx, ploidy)
+            gpm_a = float(post[idx])
+            _, sup = E.alternate_dosage_posteriors(g_a, post)
+            spm_a = float(sup.sum())
+            afp_a, acp_a, aop_a = E.posterior_allele_frequencies(post, ploidy, n)
+        except Exception as e:   # noqa: BLE001
+            chk.violation(f"a call-exact function raises on a valid input: {type(e).__name__}: {e}", case, "C03/raises")
+            continue
+        # float32 storage of the log-likelihood / log-joint arrays on the array path: a relative error of a few units in the
+        # last place of the largest finite magnitude stored (2e-5 for shallow data)
+        fin = [abs(x) for x in lj if math.isfinite(x)] + [abs(float(x)) for x in llks if math.isfinite(float(x))]
+        f32 = max(F32, 4.0 * float(np.spacing(np.float32(max(fin) if fin else 1.0))))
+        if f32 > F32:
+            chk.count("float32-resolution-above-2e-5(array-path tolerance = 4 ulp32 of the largest log-likelihood)")
+        srt = sorted(truth, reverse=True)
         margin = srt[0] - srt[1] if len(srt) > 1 else 1.0
-        # model vs implementation
-        if margin > 1e-9:
-            if g_s.tolist() != m_g:
-                chk.disagreement("streaming mode genotype != model", {**case, "impl": g_s.tolist(), "model": m_g})
+        distinct = len({round(p_, 12) for p_ in truth})
+        if has_model:
+            a = ans[line_of[i]]
+            line = lines[line_of[i]]
+            parts = a.split(";")
+            m_post = [float(C.parse_rat(x)) for x in parts[0].split()]
+            m_si, m_sg = parts[1].split(); m_ai, m_ag = parts[2].split()
+            m_g = [int(x) for x in parts[3].split()]
+            m_spm = float(C.parse_rat(parts[4]))
+            m_afp = [float(C.parse_rat(x)) for x in parts[5].split()]
+            m_acp = [float(C.parse_rat(x)) for x in parts[6].split()]
+            m_aop = [float(C.parse_rat(x)) for x in parts[7].split()]
+            chk.case(line, distinct >= 3, sample={"request": line[:200], "impl_stream": [g_s.tolist(), float(gpm_s), float(spm_s)],
+                                                  "impl_array": [g_a.tolist(), gpm_a, spm_a], "model": [m_g, float(C.parse_rat(m_sg)), m_spm]})
+            # model vs implementation
+            if margin > 1e-9:
+                if g_s.tolist() != m_g:
+                    chk.disagreement("streaming mode genotype != model", {**case, "impl": g_s.tolist(), "model": m_g})
+            else:
+                chk.count("mode-tie(not compared)")
+            if margin > 1e-4 and g_a.tolist() != m_g:
+                chk.disagreement("array-path mode genotype != model", {**case, "impl": g_a.tolist(), "model": m_g})
+            if not C.close(float(gpm_s), float(C.parse_rat(m_sg))):
+                chk.disagreement("streaming GPM != model", {**case, "impl": float(gpm_s), "model": m_sg})
+            if margin > 1e-9 and not C.close(float(spm_s), m_spm, rel=1e-8):
+                chk.disagreement("streaming SPM != model", {**case, "impl": float(spm_s), "model": m_spm})
+            for nm, iv, mv in (("AFP", afp_s, m_afp), ("AOP", aop_s, m_aop)):
+                if any(not C.close(float(x), y, rel=1e-8, abs_=1e-11) for x, y in zip(iv, mv)):
+                    chk.disagreement(f"streaming {nm} != model", {**case, "impl": [float(x) for x in iv], "model": mv})
+            if len(post) != len(m_post) or any(not (abs(float(x) - y) <= F32) for x, y in zip(post, m_post)):
+                chk.disagreement("genotype_posteriors (GP array) != model posterior in VCF order", {**case, "impl": [float(x) for x in post], "model": m_post})
+            for nm, iv, mv in (("AFP", afp_a, m_afp), ("ACP", acp_a, m_acp), ("AOP", aop_a, m_aop)):
+                if any(not (abs(float(x) - y) <= F32 * ploidy) for x, y in zip(iv, mv)):
+                    chk.disagreement(f"array-path {nm} != model", {**case, "impl": [float(x) for x in iv], "model": mv})
         else:
-            chk.count("mode-tie(not compared)")
-        if margin > 1e-4 and g_a.tolist() != m_g:
-            chk.disagreement("array-path mode genotype != model", {**case, "impl": g_a.tolist(), "model": m_g})
-        if not C.close(float(gpm_s), float(C.parse_rat(m_sg))):
-            chk.disagreement("streaming GPM != model", {**case, "impl": float(gpm_s), "model": m_sg})
-        if margin > 1e-9 and not C.close(float(spm_s), m_spm, rel=1e-8):
-            chk.disagreement("streaming SPM != model", {**case, "impl": float(spm_s), "model": m_spm})
-        for nm, iv, mv in (("AFP", afp_s, m_afp), ("AOP", aop_s, m_aop)):
-            if any(not C.close(float(x), y, rel=1e-8, abs_=1e-11) for x, y in zip(iv, mv)):
-                chk.disagreement(f"streaming {nm} != model", {**case, "impl": [float(x) for x in iv], "model": mv})
-        if len(post) != len(m_post) or any(abs(float(x) - y) > F32 for x, y in zip(post, m_post)):
-            chk.disagreement("genotype_posteriors (GP array) != model posterior in VCF order", {**case, "impl": [float(x) for x in post], "model": m_post})
-        for nm, iv, mv in (("AFP", afp_a, m_afp), ("ACP", acp_a, m_acp), ("AOP", aop_a, m_aop)):
-            if any(not (abs(float(x) - y) <= F32 * ploidy) for x, y in zip(iv, mv)):
-                chk.disagreement(f"array-path {nm} != model", {**case, "impl": [float(x) for x in iv], "model": mv})
+            chk.case(("oracle-only", var["stream"], i, ploidy, n, F, kind), distinct >= 3)
         # ---------------- oracles on the implementation
-        genos = list(itertools.combinations_with_replacement(range(n), ploidy))
-        genos.sort(key=lambda g: tuple(reversed(g)))
-        ws = [exact_w(reads, counts, haps, F, freqs, list(g)) for g in genos]
-        tw = sum(ws)
-        truth = [float(w / tw) for w in ws]
-        if any(abs(float(x) - y) > F32 for x, y in zip(post, truth)) or len(post) != len(truth):
-            k = next((j for j in range(min(len(post), len(truth))) if abs(float(post[j]) - truth[j]) > F32), -1)
+        if len(post) != len(truth) or any(not (abs(float(x) - y) <= f32) for x, y in zip(post, truth)):
+            k = next((j for j in range(min(len(post), len(truth))) if not (abs(float(post[j]) - truth[j]) <= f32)), -1)
             chk.violation("GP is not likelihood x prior normalised over all unordered genotypes in VCF order",
-                          {**case, "position": k, "impl": float(post[k]) if k >= 0 else None, "expected": truth[k] if k >= 0 else None},
-                          "C03/GP/posterior")
+                          {**case, "position": k, "impl": float(post[k]) if k >= 0 else None, "expected": truth[k] if k >= 0 else None,
+                           "n_genotypes": [len(post), len(truth)]}, "C03/GP/posterior")
+        # GL is the log-likelihood of each genotype (float32)
+        if len(llks) == len(genos):
+            for j in range(len(genos)):
+                ll_t = lls_t[j]
+                got = float(llks[j])
+                ok = (got == ll_t) if not (math.isfinite(got) and math.isfinite(ll_t)) else abs(got - ll_t) <= 2.0 * float(np.spacing(np.float32(abs(ll_t)))) + 1e-9
+                if not ok:
+                    chk.violation("GL entry is not the log-likelihood of the genotype at that VCF index (float32)",
+                                  {**case, "index": j, "genotype": list(genos[j]), "impl": got, "expected": ll_t}, "C03/GL")
+                    break
         best = max(truth)
-        gi = genos.index(tuple(g_s.tolist())) if tuple(g_s.tolist()) in genos else -1
+        pos = {g: j for j, g in enumerate(genos)}
+        gi = pos.get(tuple(g_s.tolist()), -1)
         if gi < 0 or truth[gi] < best - 1e-9:
             chk.violation("reported GT is not a maximiser of the posterior", {**case, "GT": g_s.tolist(), "its_prob": truth[gi] if gi >= 0 else None,
                                                                               "max": best}, "C03/GT/mode")
         if gi >= 0 and not C.close(float(gpm_s), truth[gi], rel=1e-8):
             chk.violation("GPM is not the posterior probability of the reported GT", {**case, "GPM": float(gpm_s), "expected": truth[gi]}, "C03/GPM")
-        sup_truth = sum(t for g, t in zip(genos, truth) if set(g) == set(g_s.tolist()))
+        sset = set(g_s.tolist())
+        sup_truth = math.fsum(t for g, t in zip(genos, truth) if set(g) == sset)
         if not C.close(float(spm_s), sup_truth, rel=1e-8):
             chk.violation("SPM is not the total probability of genotypes with the same distinct alleles",
                           {**case, "SPM": float(spm_s), "expected": sup_truth}, "C03/SPM")
         if not (float(gpm_s) <= float(spm_s) + 1e-12 and float(spm_s) <= 1 + 1e-9):
             chk.violation("GPM <= SPM <= 1 violated", {**case, "GPM": float(gpm_s), "SPM": float(spm_s)}, "C03/GPM-SPM-order")
-        if not (abs(float(np.sum(afp_s)) - 1) <= 1e-9) or not (abs(float(np.sum(acp_a)) - ploidy) <= 1e-4 * ploidy):
+        if not (abs(float(np.sum(afp_s)) - 1) <= 1e-9) or not (abs(float(np.sum(acp_a)) - ploidy) <= 5 * f32 * ploidy):
             chk.violation("AFP does not sum to 1 / ACP not to the ploidy", {**case, "sum_AFP": float(np.sum(afp_s)), "sum_ACP": float(np.sum(acp_a))},
                           "C03/AFP-ACP/sums")
-        afp_truth = [sum(t * g.count(a) for g, t in zip(genos, truth)) / ploidy for a in range(n)]
-        aop_truth = [sum(t for g, t in zip(genos, truth) if a in g) for a in range(n)]
-        if any(not C.close(float(x), y, rel=1e-8, abs_=1e-11) for x, y in zip(afp_s, afp_truth)):
-            chk.violation("AFP is not the posterior mean allele frequency", {**case, "impl": [float(x) for x in afp_s], "expected": afp_truth}, "C03/AFP")
-        if any(not C.close(float(x), y, rel=1e-8, abs_=1e-11) for x, y in zip(aop_s, aop_truth)):
-            chk.violation("AOP is not the posterior probability of occurrence", {**case, "impl": [float(x) for x in aop_s], "expected": aop_truth}, "C03/AOP")
+        afp_truth = [0.0] * n; aop_truth = [0.0] * n
+        for g, t in zip(genos, truth):
+            for a_ in set(g):
+                afp_truth[a_] += t * g.count(a_) / ploidy
+                aop_truth[a_] += t
+        if any(not C.close(float(x), y, rel=1e-8, abs_=1e-11) for x, y in zip(afp_s, afp_truth)) or len(afp_s) != n:
+            chk.violation("AFP is not the posterior mean allele frequency", {**case, "impl": [float(x) for x in afp_s][:20], "expected": afp_truth[:20]}, "C03/AFP")
+        if any(not C.close(float(x), y, rel=1e-8, abs_=1e-11) for x, y in zip(aop_s, aop_truth)) or len(aop_s) != n:
+            chk.violation("AOP is not the posterior probability of occurrence", {**case, "impl": [float(x) for x in aop_s][:20], "expected": aop_truth[:20]}, "C03/AOP")
+        # array-path summaries against the same truth (float32)
+        for nm, iv, tv, sc in (("AFP", afp_a, afp_truth, 1), ("ACP", acp_a, [x * ploidy for x in afp_truth], ploidy), ("AOP", aop_a, aop_truth, 1)):
+            if len(iv) != n or any(not (abs(float(x) - y) <= 5 * f32 * sc) for x, y in zip(iv, tv)):
+                chk.violation(f"array-path {nm} is not the posterior summary (float32 tolerance)",
+                              {**case, "impl": [float(x) for x in iv][:20], "expected": tv[:20]}, f"C03/array/{nm}")
         # the two paths agree (up to float32 and exact ties)
-        if margin > 1e-4 and g_a.tolist() != g_s.tolist():
+        if margin > max(1e-4, 10 * f32) and g_a.tolist() != g_s.tolist():
             chk.violation("GT depends on whether GP/GL is requested (streaming vs array path)", {**case, "stream": g_s.tolist(), "array": g_a.tolist()},
                           "C03/paths/GT")
-        if abs(gpm_a - float(gpm_s)) > F32 or (margin > 1e-4 and abs(spm_a - float(spm_s)) > 4 * F32):
+        if not (abs(gpm_a - float(gpm_s)) <= f32) or (margin > max(1e-4, 10 * f32) and not (abs(spm_a - float(spm_s)) <= 4 * f32)):
             chk.violation("GPM / SPM depend on whether GP/GL is requested", {**case, "stream": [float(gpm_s), float(spm_s)], "array": [gpm_a, spm_a]},
                           "C03/paths/GPM-SPM")
+    lap("function-level")
 
     # ---------------- CLI: report-option independence
-    n_ds = {"warm": 0, "quick": 1, "thorough": 4}[tier]
+    n_ds = {"warm": 0, "quick": 2, "thorough": 5}[tier]
     if n_ds:
         from . import synth
-        for d in range(n_ds):
+        for d in range(n_ds + 1):
+            deep = d == n_ds        # the last data set is deep (60-150 templates per sample and locus)
             tmp = tempfile.mkdtemp(prefix="c03_")
             try:
-                # equal ploidy, shallow reads (the prior matters) and a DIFFERENT inbreeding coefficient per sample
-                ds = synth.make_dataset(r, tmp, n_samples=3, n_loci=3, ploidies=(4,), max_snvs=3, depth=(2, 5))
+                if deep:
+                    ds = synth.make_dataset(r, tmp, n_samples=2, n_loci=2, ploidies=(2, 4), max_snvs=2, depth=(60, 150))
+                else:
+                    # mixed ploidy, shallow reads (the prior matters) and a DIFFERENT inbreeding coefficient per sample
+                    ds = synth.make_dataset(r, tmp, n_samples=3, n_loci=3, ploidies=(2, 4, 6), max_snvs=3, depth=(2, 5))
+                chk.count("cli:dataset:" + ("deep(60-150)" if deep else "shallow(2-5)") + ":ploidies=" + "/".join(str(ds.ploidy[s_]) for s_ in ds.samples))
                 inb = tmp + "/inbreeding.tsv"
                 with open(inb, "w") as fh:
                     # a map by sample name: lines in reverse order of the samples, plus a sample that is not in the run
@@ -294,24 +487,41 @@ def run(tier, replay=None):
                     continue
                 hap = synth.bgzip_tabix_vcf(synth.write_text(tmp + "/hap.vcf", out))
                 results = {}
-                sets = [(), ("GP",), ("GL",), ("AFP", "GP"), ("AOP", "ACP")]
+                # () .. ("AOP","ACP","AFP") run the streaming path; GP and / or GL switch to the full-array path
+                sets = [(), ("AOP", "ACP", "AFP"), ("GP",), ("GL",), ("AFP", "GP"), ("GL", "AFP", "ACP", "AOP"), ("GL", "GP", "AOP")]
+                if deep:
+                    sets = [(), ("AOP", "ACP", "AFP"), ("GL", "AFP", "ACP", "AOP"), ("GP", "AOP")]
                 for rs in sets:
                     extra = ["--report", *rs] if rs else []
                     o, rc2, e2 = synth.run_program(ds.call_argv("call-exact", hap, "--inbreeding", inb, *extra))
-                    chk.count("cli:call-exact")
+                    chk.count("cli:call-exact"); chk.count("cli:report=" + ("+".join(rs) or "default"))
                     if rc2 != 0:
                         chk.violation("call-exact fails with a --report set", {"report": rs, "error": e2[:300]}, "C03/cli/crash")
                         continue
                     _, recs = synth.parse_vcf_text(o)
                     results[rs] = recs
-                base = results.get(())
-                for rs, recs in results.items():
-                    if base is None or rs == ():
+                    for rec in recs:
+                        for name, smp in zip(rec["sample_names"], rec["samples"]):
+                            missing = [k_ for k_ in ("GT", "GPM", "SPM") + tuple(rs) if k_ not in smp]
+                            if missing:
+                                chk.violation("call-exact: a requested (or mandatory) FORMAT field is absent from a sample column",
+                                              {"pos": rec["POS"], "sample": name, "report": list(rs), "missing": missing, "FORMAT": rec["FORMAT"]},
+                                              "C03/cli/requested-field-absent")
+                n_rec = {len(v) for v in results.values()}
+                if len(n_rec) > 1:
+                    chk.violation("the number of call-exact records depends on the --report set", {"records": {str(k): len(v) for k, v in results.items()}},
+                                  "C03/cli/report-dependence")
+                # every column any two runs share must agree (the first run reporting a key is the reference; it is a streaming run)
+                for key in ("GT", "GPM", "SPM", "AFP", "ACP", "AOP"):
+                    having = [rs for rs in sets if rs in results and all(key in smp for rec in results[rs] for smp in rec["samples"])]
+                    if len(having) < 2:
                         continue
-                    for rb, rr in zip(base, recs):
-                        for sb, sr in zip(rb["samples"], rr["samples"]):
-                            for key in ("GT", "GPM", "SPM", "AFP", "ACP", "AOP"):
-                                if key in sb and key in sr and sb[key] != sr[key]:
+                    ref = having[0]
+                    for rs in having[1:]:
+                        chk.count(f"cli:compared:{key}")
+                        for rb, rr in zip(results[ref], results[rs]):
+                            for sb, sr in zip(rb["samples"], rr["samples"]):
+                                if sb[key] != sr[key]:
                                     # allow float32 rounding at the third decimal
                                     try:
                                         xs = [float(x) for x in sb[key].split(",")]; ys = [float(x) for x in sr[key].split(",")]
@@ -320,11 +530,21 @@ def run(tier, replay=None):
                                             continue
                                     except ValueError:
                                         pass
+                                    if key == "GT" and "GPM" in sb and sb["GPM"] not in (".", "") and "SPM" in sb:
+                                        # an exact / float32-level tie between two genotypes may be broken differently by the two paths
+                                        try:
+                                            if abs(float(sb["GPM"]) - float(sr["GPM"])) <= 0.0011 and float(sb["GPM"]) <= 0.5:
+                                                chk.count("cli:GT-tie(not compared)")
+                                                continue
+                                        except ValueError:
+                                            pass
                                     chk.violation("call-exact column depends on the --report set",
-                                                  {"pos": rb["POS"], "field": key, "default": sb[key], "with": list(rs), "value": sr[key]},
-                                                  "C03/cli/report-dependence")
+                                                  {"pos": rb["POS"], "field": key, "report_a": list(ref), "value_a": sb[key], "report_b": list(rs),
+                                                   "value_b": sr[key]}, "C03/cli/report-dependence")
                 chk.case(("cli", d), True)
-                cli_posterior_oracle(chk, drv, synth, ds, tmp, inb)
+                lap(f"cli:report-sets:{'deep' if deep else 'shallow'}:{d}")
+                cli_posterior_oracle(chk, drv, synth, ds, tmp, inb, deep=deep)
+                lap(f"cli:posterior-oracle:{'deep' if deep else 'shallow'}:{d}")
             finally:
                 shutil.rmtree(tmp, ignore_errors=True)
     return chk.finish()
